@@ -5,6 +5,7 @@ package interp
 // nondeterministic stubs.  Every stub that takes part in a run is recorded in the evidence.
 
 import (
+	"time"
 	"encoding/json"
 	"fmt"
 	"go/token"
@@ -441,39 +442,50 @@ func init() {
 
 		// ---- encoding/json: only the one use csvq's option parsing makes of it -------------
 		"encoding/json.Unmarshal": func(fr *frame, a []value) value {
-			// json.Unmarshal(concrete bytes, *[]int): delimiter positions of the fixed-length format
+			// json.Unmarshal(concrete bytes, *[]int | *[]string): delimiter positions, datetime formats
 			tgt, ok := a[1].(iface)
 			if !ok || !allConcrete(a[:1]) {
-				panic("unsupported: encoding/json.Unmarshal on symbolic data")
+				panic(inconclusive{"encoding/json.Unmarshal on symbolic data"})
 			}
 			pt, ok := tgt.t.(*types.Pointer)
 			if !ok {
-				panic("unsupported: encoding/json.Unmarshal target " + tgt.t.String())
+				panic(inconclusive{"encoding/json.Unmarshal target " + tgt.t.String()})
 			}
 			st, ok := pt.Elem().Underlying().(*types.Slice)
-			if !ok || !types.Identical(st.Elem(), types.Typ[types.Int]) {
-				panic("unsupported: encoding/json.Unmarshal target " + tgt.t.String())
+			isInt := ok && types.Identical(st.Elem(), types.Typ[types.Int])
+			isStr := ok && types.Identical(st.Elem(), types.Typ[types.String])
+			if !isInt && !isStr {
+				panic(inconclusive{"encoding/json.Unmarshal target " + tgt.t.String()})
 			}
-			used("encoding/json.Unmarshal into *[]int (native, concrete text)")
+			used("encoding/json.Unmarshal into *[]int / *[]string (native, concrete text)")
 			raw := a[0].([]value)
 			b := make([]byte, len(raw))
 			for i := range raw {
 				b[i] = raw[i].(uint8)
 			}
-			var out []int
-			err := json.Unmarshal(b, &out)
-			if err == nil {
-				cell := tgt.v.(*value)
-				logCell(cell)
-				if out == nil {
-					*cell = []value(nil)
-				} else {
-					vs := make([]value, len(out))
+			var err error
+			var vs []value
+			if isInt {
+				var out []int
+				if err = json.Unmarshal(b, &out); err == nil && out != nil {
+					vs = make([]value, len(out))
 					for i := range out {
 						vs[i] = out[i]
 					}
-					*cell = vs
 				}
+			} else {
+				var out []string
+				if err = json.Unmarshal(b, &out); err == nil && out != nil {
+					vs = make([]value, len(out))
+					for i := range out {
+						vs[i] = out[i]
+					}
+				}
+			}
+			if err == nil {
+				cell := tgt.v.(*value)
+				logCell(cell)
+				*cell = vs
 			}
 			return nativeErr(fr, err)
 		},
@@ -978,7 +990,19 @@ func init() {
 		},
 		"time.Sleep": func(fr *frame, a []value) value { retrySleep(fr); sched.sleepYield(); return nil },
 		"os.Exit":    func(fr *frame, a []value) value { panic(exitPanic(asInt64(a[0]))) },
-		"os.Getenv":  func(fr *frame, a []value) value { return "" },
+		"os.Getenv": func(fr *frame, a []value) value {
+			if vfs != nil {
+				return vfs.env[goStr(a[0])]
+			}
+			return ""
+		},
+		// no terminal is attached (as under go test): the width falls back to the default
+		"golang.org/x/crypto/ssh/terminal.GetSize": func(fr *frame, a []value) value {
+			return tuple{0, 0, errorValue(fr, "inappropriate ioctl for device")}
+		},
+		"golang.org/x/term.GetSize": func(fr *frame, a []value) value {
+			return tuple{0, 0, errorValue(fr, "inappropriate ioctl for device")}
+		},
 		"internal/bytealg.MakeNoZero": func(fr *frame, a []value) value {
 			n := int(asInt64(a[0]))
 			b := make([]value, n)
@@ -1110,6 +1134,27 @@ func init() {
 	}
 	externals["internal/stringslite.Clone"] = func(fr *frame, a []value) value { return a[0] }
 	externals["strings.Clone"] = func(fr *frame, a []value) value { return a[0] }
+	// time.LoadLocation reads the zone database through raw system calls: UTC and Local (modelled as
+	// UTC) are answered from the package's own variables, a name the real database does not know is an
+	// error here as well, any other zone is outside the model.
+	externals["time.LoadLocation"] = func(fr *frame, a []value) value {
+		name, ok := a[0].(string)
+		if !ok {
+			panic(inconclusive{"time.LoadLocation of a symbolic name"})
+		}
+		pkg := fr.i.prog.ImportedPackage("time")
+		switch name {
+		case "", "UTC":
+			return tuple{*fr.i.globals[pkg.Var("UTC")], iface{}}
+		case "Local":
+			return tuple{*fr.i.globals[pkg.Var("Local")], iface{}}
+		}
+		if _, err := time.LoadLocation(name); err != nil {
+			used("time.LoadLocation (UTC / Local from the package, unknown names fail as natively)")
+			return tuple{(*value)(nil), nativeErr(fr, err)}
+		}
+		panic(inconclusive{"time.LoadLocation(" + name + "): zone database not modelled"})
+	}
 	externals["time.runtimeNano"] = func(fr *frame, a []value) value { return int64(0) }
 	externals["time.now"] = func(fr *frame, a []value) value {
 		used("time.now (model: fixed instant 2023-11-14T22:13:20Z)")
